@@ -211,8 +211,10 @@ class C13(conncheck.ConnCheck):
                 res.samples.append({'abandon': ab, 'events': model.seen_names, 'choices': chooser.describe()[-6:]})
 
         ex = explore.Explorer(lambda c, e: self.one_run(cfg, c, e), check, dev_kinds=('app', 'abandon'),
-                              max_dev=cfg['max_dev'], dev_limits={'abandon': 1, 'app': 1}, cache=True)
+                              max_dev=cfg['max_dev'], dev_limits={'abandon': 1, 'app': 1}, cache=True, max_runs=400000)
         ex.run()
+        if ex.capped:
+            res.caps.append('explorer run cap reached')
         res.states |= ex.states
         res.transitions |= ex.edges
         res.counters['truncated_runs'] += ex.truncated
